@@ -18,7 +18,6 @@ package math
 //@   loop 1
 //@     invariant n == 0 ==> x == 0 && y == 0
 //@     invariant n > 0 ==> 0 < x && x <= n && n < (x+1)*(x+1) && y == (x + n/x)/2
-//@     invariant n > 0 && n < 18446744073709551615 && x == n ==> y == (n+1)/2
 //@     decreases x
 
 //@ func IsPowerOfTwo(n) r
